@@ -947,6 +947,54 @@ TOKENS = [b"GET ", b"POST ", b"HEAD ", b"/", b" HTTP/1.1\r\n", b" HTTP/1.0\r\n",
           b"\xff\xff\xff", b"\x00", b"\x80", b":", b" ", b"%", b"?a=1&a=2", b"%zz", b"--x\r\n", b"{\"query\":\"{a}\"}"]
 
 
+H2_PREFACE = b"PRI * HTTP/2.0\r\n\r\nSM\r\n\r\n"
+
+
+def h2_frame(ftype, flags, sid, payload):
+    n = len(payload)
+    return bytes([(n >> 16) & 255, (n >> 8) & 255, n & 255, ftype, flags]) + sid.to_bytes(4, "big") + payload
+
+
+def big_data_streams(rng, quick):
+    """HTTP/2 halves whose DATA frames reach and pass the assembler's per-stream cap (1 MiB): a stream that starts
+    with a DATA frame (no HEADERS) or with HEADERS, one frame of the framer's largest sizes or many frames adding up;
+    followed by more DATA on the same stream."""
+    cap = 1 << 20
+    hdr_get = h2_frame(1, 4, 0, b"\x82\x84\x86\x41\x01h")           # HEADERS(END_HEADERS) :method GET, :path /, :scheme http, :authority h
+    out = []
+    firsts = [cap - 1, cap, cap + 1, 2 * cap + 5] if quick else [cap - 1, cap, cap + 1, cap + 16384, 2 * cap + 5, (1 << 24) - 1]
+    for n in firsts:
+        for with_headers in (False, True):
+            for second in ([0, 70000] if quick else [0, 1, 16384, 70000, cap + 1]):
+                sid = rng.choice([1, 3, 5, 7])
+                fill = bytes([rng.randrange(256)])
+                c = bytearray(H2_PREFACE + h2_frame(4, 0, 0, b""))
+                if with_headers:
+                    c += hdr_get[:5] + sid.to_bytes(4, "big") + hdr_get[9:]
+                c += h2_frame(0, 0, sid, fill * n)
+                c += h2_frame(0, rng.choice([0, 1]), sid, fill * second)
+                c += h2_frame(0, 1, sid, b"tail")
+                out.append((bytes(c), h2_frame(4, 0, 0, b""), "big-data first=%d headers=%s second=%d" % (n, with_headers, second)))
+    # many default-size frames adding up beyond the cap
+    for with_headers in (False, True):
+        sid = 1
+        c = bytearray(H2_PREFACE + h2_frame(4, 0, 0, b""))
+        if with_headers:
+            c += hdr_get[:5] + sid.to_bytes(4, "big") + hdr_get[9:]
+        for _ in range(cap // 16384 + 2):
+            c += h2_frame(0, 0, sid, b"x" * 16384)
+        c += h2_frame(0, 1, sid, b"y" * 100)
+        out.append((bytes(c), h2_frame(4, 0, 0, b""), "big-data frames=%d headers=%s" % (cap // 16384 + 3, with_headers)))
+    return out
+
+
+# frames that http2.Framer.ReadFrame answers with an error other than an end of stream
+REJECTED_FRAMES = [h2_frame(8, 0, 1, b"\x00\x00\x00\x00"), h2_frame(8, 0, 0, b"\x00\x00\x00\x00"), h2_frame(6, 0, 0, b"1234567"),
+                   h2_frame(4, 0, 0, b"12345"), h2_frame(3, 0, 1, b"123"), h2_frame(2, 0, 1, b"1234"), h2_frame(7, 0, 0, b"1234"),
+                   h2_frame(0, 0, 0, b"data on stream 0"), h2_frame(1, 4, 0, b"\x82"), h2_frame(9, 4, 1, b"\x82"), h2_frame(4, 1, 0, b"123456"),
+                   h2_frame(5, 4, 0, b"\x00\x00\x00\x02\x82"), h2_frame(1, 4, 1, b"\xff\xff\xff\xff\xff")]
+
+
 def random_stream(rng, n):
     out = bytearray()
     for _ in range(n):
@@ -1022,6 +1070,9 @@ def c01(ctx):
         c, s = random_stream(rng, rng.randint(1, 25)), random_stream(rng, rng.randint(1, 25))
         add(raw(c, s, ccuts=rand_cuts(rng, len(c)), scuts=rand_cuts(rng, len(s)), ctail=rng.choice([0, 1, 2]), stail=rng.choice([0, 1, 2]),
                 first=rng.choice(["c", "s"])), ("random", None, None))
+    for c, sv, what in big_data_streams(rng, quick):
+        add(raw(c, sv, ctail=0, stail=0), ("bigdata", {"kind": "h2", "what": what}, None))
+        add(raw(H2_PREFACE + sv, c[len(H2_PREFACE):], ctail=0, stail=0), ("bigdata", {"kind": "h2", "what": what + " (server half)"}, None))
     res = run_cases(ctx, cases, batch=60)
     nviol = 0
     partial_extra = 0
@@ -1079,6 +1130,26 @@ def c08(ctx):
             e[rng.randrange(len(e))] = rng.choice([0, 0x0a, 0xff, 0x3a])
         streams.append((bytes(d), sb))
         streams.append((cb, bytes(e)))
+    # HTTP/2 halves with a frame the framer rejects (not an end of stream) between complete frames, more messages after it
+    nh2 = 0
+    for (conv, meta), (cb, sb) in list(zip(convs, streams)):
+        if meta["kind"] != "h2" or nh2 >= (2 if quick else 8):
+            continue
+        nh2 += 1
+        for side in ("c", "s"):
+            data = cb if side == "c" else sb
+            start = len(H2_PREFACE) if data.startswith(H2_PREFACE) else 0
+            bounds, p = [], start
+            while p + 9 <= len(data):
+                p += 9 + int.from_bytes(data[p:p + 3], "big")
+                if p <= len(data):
+                    bounds.append(p)
+            if len(bounds) < 3:
+                continue
+            for bad in rng.sample(REJECTED_FRAMES, 3 if quick else len(REJECTED_FRAMES)):
+                at = rng.choice(bounds[:-1])
+                d = data[:at] + bad + data[at:]
+                streams.append((d, sb) if side == "c" else (cb, d))
     cases, ref = [], {}
     for si, (cb, sb) in enumerate(streams):
         def add(**kw):
